@@ -37,6 +37,8 @@ Definition obs_eqb (a b : obs) : bool :=
   | ObsReq o ds, ObsReq o' ds' => outcome_eqb o o' && list_eqb dial_eqb ds ds'
   | ObsBg ds a, ObsBg ds' a' => list_eqb dial_eqb ds ds' && altobs_eqb a a'
   | ObsCfg, ObsCfg => true
+  | ObsFork o ds bg a, ObsFork o' ds' bg' a' =>
+      outcome_eqb o o' && list_eqb dial_eqb ds ds' && list_eqb dial_eqb bg bg' && altobs_eqb a a'
   | _, _ => false
   end.
 
